@@ -87,6 +87,28 @@ def check(run):
     cases.append(["new:0", "st:0:7", "new:1", "cp:0:1:ca", "gs:0", "new:2", "st:2:3", "cp:3:2:cc", "gs:3", "cp:3:1:ma", "gs:3", "w:3", "w:1"])
     cases.append(["new:0", "ia:0:1", "ia:0:2", "ia:0:2", "iq:0:6", "cp:1:0:mc", "cp:2:1:cc", "RA:1", "del:1", "RA:2", "RA:2", "rq:2", "w:2", "w:0"])
     compare(run, cases, seen, "copy")
+    # "including the blocks returned by the reader": every block of a file read into / assigned to ONE block object must give the
+    # records a fresh object gives (differing table contents under equal indices in consecutive blocks, cursors, cached look-ups)
+    import refexp, expcheck as E, cdnsgen as G
+    sessions = [refexp.gen_session(rng, nops=rng.randrange(8, 40), maxes=[1, 2, 3], stats_p=0.3) for _ in range(60 if quick else 3000)]
+    res = E.run_sessions(run, sessions, need_lean=False)
+    lines, want = [], []
+    for s_, r in zip(sessions, res):
+        if r["results"] is None:
+            continue
+        for oi, (data, err) in enumerate(r["plain"]):
+            d = r["rd"].get(oi, "")
+            if data and d.endswith(" EOF") and d.count(" B{") >= 2:
+                for kind in ("R", "A"):
+                    lines.append("rd %s %s" % (kind, data.hex())); want.append(d)
+    for l, d, a in zip(lines, want, G.run_rd(lines)):
+        run.case(("reuse", l[:200]), True, key=l); run.count("files read through one re-used block object")
+        if a != d:
+            sig = "copy:reused-reader-block:" + l.split()[1]
+            if sig not in seen:
+                seen.add(sig)
+                run.spec_fail.append((sig, l[:8000], {"how": "R = CdnsBlockRead::read into the same object, A = block = reader.read_block(eof)",
+                                                     "with fresh objects": d[:1500], "with one re-used object": (a or "")[:1500]}))
 
 
 def replay(run, data):
